@@ -63,11 +63,13 @@ def main():
     seed, n = int(sys.argv[1]), int(sys.argv[2])
     rng = random.Random(seed * 7919 + 13)
     names = reactions.names()
-    heavy = {"lc_pkpi_can", "jpsi_ksp1750_can", "jpsi_ksp_can", "jpsi_ksp1750_hel", "d0_k3pi_hel", "jpsi_gpipi_f2_can"}
+    heavy = {"psi2s_ggjpsi_hel", "lc_pkpi_can", "jpsi_ksp1750_can", "jpsi_ksp_can", "jpsi_ksp1750_hel", "d0_k3pi_hel", "jpsi_gpipi_f2_can"}
     seen, failures, samples = set(), [], []
     kinds = collections.Counter()
     evaluations = rejected = 0
-    cfgs = []
+    # regression corpus first: axis-angle alignment with a massless final state below an isobar
+    cfgs = [mg.default_cfg("chic0_omegaomega_hel", align="aa", dyn="bw"),
+            mg.default_cfg("psi2s_ggjpsi_hel", align="aa", keep=[3, 17])]
     for _ in range(n):
         name = rng.choice(names)
         cfg = mg.random_cfg(rng, name)
